@@ -307,6 +307,75 @@ func runDense(c *acase, seed int64, sum *core.Summary) {
 	}
 }
 
+// ---------------------------------------------------------------- Dense window and vector view
+
+// mixedMethod is a call with a Dense window m and a VecDense view v of the same parent, one of
+// them being the receiver.
+type mixedMethod struct {
+	name string
+	// ok reports whether the method applies to a window of r x c and a view of length n
+	ok func(r, c, n int) bool
+	// vecRecv: the vector view is the receiver (the window is the operand)
+	vecRecv bool
+	run     func(m *mat.Dense, v *mat.VecDense, r, c, n int)
+}
+
+var mixedMethods = []mixedMethod{
+	{name: "Outer(2,V,f)", ok: func(r, c, n int) bool { return n == r }, run: func(m *mat.Dense, v *mat.VecDense, r, c, n int) { m.Outer(2, v, freshVec(c, 4)) }},
+	{name: "Outer(2,f,V)", ok: func(r, c, n int) bool { return n == c }, run: func(m *mat.Dense, v *mat.VecDense, r, c, n int) { m.Outer(2, freshVec(r, 3), v) }},
+	{name: "RankOne(f,2,V,f)", ok: func(r, c, n int) bool { return n == r }, run: func(m *mat.Dense, v *mat.VecDense, r, c, n int) { m.RankOne(fresh(r, c, 5), 2, v, freshVec(c, 4)) }},
+	{name: "RankOne(f,2,f,V)", ok: func(r, c, n int) bool { return n == c }, run: func(m *mat.Dense, v *mat.VecDense, r, c, n int) { m.RankOne(fresh(r, c, 5), 2, freshVec(r, 3), v) }},
+	{name: "Mul(f,V)", ok: func(r, c, n int) bool { return c == 1 }, run: func(m *mat.Dense, v *mat.VecDense, r, c, n int) { m.Mul(fresh(r, n, 6), v) }},
+	{name: "Add(f,V)", ok: func(r, c, n int) bool { return c == 1 && n == r }, run: func(m *mat.Dense, v *mat.VecDense, r, c, n int) { m.Add(fresh(r, 1, 6), v) }},
+	{name: "V.MulVec(M,f)", vecRecv: true, ok: func(r, c, n int) bool { return n == r }, run: func(m *mat.Dense, v *mat.VecDense, r, c, n int) { v.MulVec(m, freshVec(c, 4)) }},
+	{name: "V.MulVec(M.T,f)", vecRecv: true, ok: func(r, c, n int) bool { return n == c }, run: func(m *mat.Dense, v *mat.VecDense, r, c, n int) { v.MulVec(m.T(), freshVec(r, 3)) }},
+}
+
+// runMatVec: family "matvec" - w1 is a Dense window, w2 a column or row view of the same parent.
+func runMatVec(c *acase, seed int64, sum *core.Summary) {
+	L := c.W1.PR * c.W1.PC
+	r, cc, n := c.W1.R, c.W1.C, c.W2.N
+	for mi := range mixedMethods {
+		mm := &mixedMethods[mi]
+		if c.Method != "" && c.Method != mm.name {
+			continue
+		}
+		if !mm.ok(r, cc, n) {
+			continue
+		}
+		// the unaliased result: same method on private copies
+		ref := fill(L, seed)
+		refM := mat.DenseCopyOf(view(parent(ref, c.W1.PR, c.W1.PC), c.W1))
+		refV := mat.VecDenseCopyOf(vecView(ref, c.W2))
+		if refOut := core.Call(func() { mm.run(refM, refV, r, cc, n) }); refOut.Panicked {
+			sum.Count("skipped_unaliased_panic", 1)
+			continue
+		}
+		backing := fill(L, seed)
+		snapshot := append([]float64(nil), backing...)
+		m := view(parent(backing, c.W1.PR, c.W1.PC), c.W1)
+		v := vecView(backing, c.W2)
+		out := core.Call(func() { mm.run(m, v, r, cc, n) })
+		want := append([]float64(nil), snapshot...)
+		if mm.vecRecv {
+			for i := 0; i < n; i++ {
+				want[c.W2.Off+i*c.W2.Inc] = refV.AtVec(i)
+			}
+		} else {
+			for i := 0; i < r; i++ {
+				for j := 0; j < cc; j++ {
+					want[c.W1.Off+i*c.W1.St+j] = refM.At(i, j)
+				}
+			}
+		}
+		sum.Cases++
+		if c.Rel != "disjoint" {
+			sum.Nontrivial++
+		}
+		judge(sum, c, mm.name, c.Expect, out, backing, snapshot, want, "")
+	}
+}
+
 // ---------------------------------------------------------------- VecDense
 
 type vecMethod struct {
@@ -677,6 +746,8 @@ func replay(in *core.Lines, args []string, seed int64, sum *core.Summary) error 
 			runSymTri(c, seed, sum)
 		case "vec":
 			runVec(c, seed, sum)
+		case "matvec":
+			runMatVec(c, seed, sum)
 		default:
 			return fmt.Errorf("unknown family %q", c.Fam)
 		}
